@@ -74,6 +74,31 @@ Definition supercore (PL : t3) (c1 : core4 R) (x1 : core3 R) (c2 : core4 R) (x2 
   sum_n (r0 x1) (fun r => sum_n (nm c1) (fun n => sum_n (r1 x1) (fun R' =>
     sum_n (q0 c1) (fun s => sum_n (q1 c1) (fun S => PL l s r * e4 c1 s m1 n S * super_right c2 x2 PR m2 L S R')) * e3 x1 r n R'))).
 
+(* ---- operator-operator products (amen_mm): `_compute_phi_fwd_AB` 'rab,amkA,bknB,rmnR->RAB', `_compute_phi_bck_AB` 'RAB,amkA,bknB,rmnR->rab' and
+   `_local_AB` 'rab,amkA,bknB,RAB->rmnR' of torchtt/_amen.py.  The column index n of B and of the result is a spectator of the local product and is summed
+   in the interface recursions: everything is the matrix-vector case on the column slices ---- *)
+Definition colcore (c : core4 R) (n : nat) : core3 R := mk3 (q0 c) (mm c) (q1 c) (fun p i q => e4 c p i n q).
+Definition phi_fwd4 (T : t3) (y A B : core4 R) : t3 := fun R' A' B' => sum_n (nm B) (fun n => phi_fwd T (colcore y n) A (colcore B n) R' A' B').
+Definition phi_bck4 (P : t3) (y A B : core4 R) : t3 := fun r a b => sum_n (nm B) (fun n => phi_bck P (colcore y n) A (colcore B n) r a b).
+Fixpoint phiF4 (x A B : ttm R) (T : t3) : t3 :=
+  match x, A, B with
+  | y :: xs, a :: As, b :: Bs => phiF4 xs As Bs (phi_fwd4 T y a b)
+  | _, _, _ => T
+  end.
+Fixpoint phiB4 (x A B : ttm R) : t3 :=
+  match x, A, B with
+  | y :: xs, a :: As, b :: Bs => phi_bck4 (phiB4 xs As Bs) y a b
+  | _, _, _ => ones3
+  end.
+Definition local_AB (PL : t3) (A B : core4 R) (PR : t3) (ra rb : nat) : core4 R :=
+  mk4 ra (mm A) (nm B) rb (fun r m n R' => e3 (local_product PL A PR (colcore B n)) r m R').
+(* the column slices of a TT matrix at a column multi-index: a TT tensor over the row modes *)
+Fixpoint cols (x : ttm R) (js : list nat) : tt R :=
+  match x, js with
+  | c :: ct, j :: jt => colcore c j :: cols ct jt
+  | _, _ => []
+  end.
+
 (* a core with a single entry equal to one: the basis vector (l0, m0, L0) of the local space *)
 Definition unit3 (ra n rb l0 m0 L0 : nat) : core3 R :=
   mk3 ra n rb (fun l m L => delta l0 l * delta m0 m * delta L0 L).
@@ -117,6 +142,12 @@ Definition check_chain (pre post : list (nat * nat * nat * list R)) (Apre Apost 
   if eqb_l (flat_of_core (local_product PL (c4 ck) PR (c3 g))) impl_lp then
     if eqb_l (flat_of_core (local_rhs (phibF (map c3 bpre) xpre ones2) (c3 bk) (phibB (map c3 bpost) xpost) (r0 (c3 g)) (r1 (c3 g)))) impl_rhs then 0 else 5
   else 4.
+Definition check_phi_fwd4 (rs rb : nat) (T : list R) y a b (impl : list R) : nat :=
+  if eqb_l (t3_flat (q1 (c4 y)) (q1 (c4 a)) (q1 (c4 b)) (phi_fwd4 (t3_of_flat rs rb T) (c4 y) (c4 a) (c4 b))) impl then 0 else 4.
+Definition check_phi_bck4 (rs rb : nat) (P : list R) y a b (impl : list R) : nat :=
+  if eqb_l (t3_flat (q0 (c4 y)) (q0 (c4 a)) (q0 (c4 b)) (phi_bck4 (t3_of_flat rs rb P) (c4 y) (c4 a) (c4 b))) impl then 0 else 4.
+Definition check_local_AB (ra rb rsL rbL : nat) (PL : list R) a b (rsR rbR : nat) (PR : list R) (impl : list R) : nat :=
+  if eqb_l (flat_of_core4 (local_AB (t3_of_flat rsL rbL PL) (c4 a) (c4 b) (t3_of_flat rsR rbR PR) ra rb)) impl then 0 else 4.
 (* the supercore as a flat list over (l, m1, m2, L), l < ra, L < rc *)
 Definition check_supercore (ra rc rsL rbL : nat) (PL : list R) c1 x1 c2 x2 (rsR rbR : nat) (PR : list R) (impl : list R) : nat :=
   let W := supercore (t3_of_flat rsL rbL PL) (c4 c1) (c3 x1) (c4 c2) (c3 x2) (t3_of_flat rsR rbR PR) in
